@@ -184,7 +184,7 @@ fn judge(ctx: &mut Ctx, text: &str, tokens: Option<&[&str]>, base: &Snap, is: &p
 }
 
 fn random_token(r: &mut Rng, instr: &[String]) -> String {
-    match r.below(16) {
+    match r.below(17) {
         0 => r.pick(&["2147483647", "-2147483648", "2147483648", "-0", "+7", "007", "1_000"]).to_string(),
         1 => r.pick(&["NaN", "inf", "-inf", "1e39", "-0.0", "1.5", ".5", "5.", "1e-50", "infinity", "nan", "0x10"]).to_string(),
         2 => r.pick(&["TRUE", "FALSE", "true", "False"]).to_string(),
@@ -202,6 +202,37 @@ fn random_token(r: &mut Rng, instr: &[String]) -> String {
         10 => {
             let n = 1 + r.below(12);
             (0..n).map(|_| char::from_u32(33 + r.below(94) as u32).unwrap()).filter(|c| *c != '(' && *c != ')').collect::<String>() + "z"
+        }
+        12 => {
+            // decimal literals just beside the MIDPOINT of two neighbouring f32 values, written with 25-40
+            // digits: the correctly rounded f32 (what from_str gives) differs from a value rounded twice
+            // (through f64). The midpoint of x and its successor is exact in f64 and is printed exactly.
+            let x = f32::from_bits(*r.pick(&[0x4b800000u32, 0x4b800001, 0x4c000000, 0x3f800000, 0x3f800001, 0x41200000, 0x7f000000, 0x00800000, 0x3dcccccd]) + r.below(4) as u32);
+            let y = f32::from_bits(x.to_bits() + 1);
+            let mid = (x as f64 + y as f64) / 2.0;
+            let exact = format!("{:.60}", mid);
+            let exact = exact.trim_end_matches('0').to_string();
+            let exact = if exact.ends_with('.') { format!("{}0", exact) } else { exact };
+            match r.below(3) {
+                0 => exact,                                   // the tie itself (round half to even)
+                1 => format!("{}{}1", exact, "0".repeat(r.below(12))), // a hair above the midpoint
+                _ => {
+                    // a hair below: decrement the last digit and append nines
+                    let mut cs: Vec<char> = exact.chars().collect();
+                    let mut k = cs.len() - 1;
+                    while k > 0 && (cs[k] == '0' || cs[k] == '.') {
+                        k -= 1;
+                    }
+                    if cs[k].is_ascii_digit() && cs[k] != '0' {
+                        cs[k] = ((cs[k] as u8) - 1) as char;
+                        let mut t: String = cs.into_iter().collect();
+                        t.push_str(&"9".repeat(6 + r.below(12)));
+                        t
+                    } else {
+                        exact
+                    }
+                }
+            }
         }
         11 => {
             // LONG spellings of numbers (heavy-tailed token length): leading zeros, trailing fraction
